@@ -257,7 +257,9 @@ func TestVerifC03Dec(t *testing.T) {
 		// type + serialization + footer (independent CRC64)
 		vfC03CheckL1(s, dss[i], o, out, c, descs[i])
 		// ---- damaged variants (decoder model on malformed input)
-		if i%3 == 0 && len(o.File) > 10 {
+		// (files with old-format zset scores are left out: the model covers only
+		// integer / inf / nan score strings, a damaged digit may still parse in Go)
+		if i%3 == 0 && len(o.File) > 10 && !strings.Contains(descs[i], " zs1 ") {
 			d := append([]byte{}, o.File...)
 			switch r.Intn(3) {
 			case 0:
